@@ -223,3 +223,66 @@ Fixpoint seq_observe (s : state) (ls : list label) : list nat :=
   | l :: r => let s1 := seq_step s l in length (emits s1) :: seq_observe s1 r
   end.
 Definition seq_run (ls : list label) : state := fold_left seq_step ls init.
+
+(* ---- scheduled execution at the granularity of the sync points.
+   The harness parks each logical thread at the beginning of every action and at the sync points inside
+   DropAll::drop ("upgraded" = before the lock, "taken" = before the closure call, "unlocked" = before the
+   upgraded reference is released); one grant lets one thread run to its next sync point.  A grant is a
+   short label list of the LTS. *)
+Record thr := mk_thr { t_rest : list label; t_cur : option nat }.
+
+Definition pc_at (s : state) (i : nat) : pc :=
+  match nth_error (tasks s) i with Some p => p | None => PDone end.
+
+(* does the thread park after the step p0 -> p1 ? *)
+Definition stop_after (p0 p1 : pc) : bool :=
+  match p1 with
+  | PDone | PLock | PCall => true
+  | PGDec => match p0 with PUnlock => true | _ => false end
+  | _ => false
+  end.
+
+Fixpoint advance (fuel : nat) (s : state) (i : nat) : state :=
+  match fuel with
+  | O => s
+  | S k => let s1 := step_task s i in
+           if stop_after (pc_at s i) (pc_at s1 i) then s1 else advance k s1 i
+  end.
+
+(* the sync point a parked thread reports: 0 between actions, 1 upgraded, 2 taken, 3 unlocked *)
+Definition pc_code (p : pc) : nat :=
+  match p with PLock => 1 | PCall => 2 | PGDec => 3 | _ => 0 end.
+
+Definition grant (st : state * list thr) (t : nat) : (state * list thr) * nat :=
+  let '(s, ths) := st in
+  match nth_error ths t with
+  | None => (st, 0)
+  | Some th =>
+    match t_cur th with
+    | Some i =>
+        let s1 := advance 8 s i in
+        let p := pc_at s1 i in
+        ((s1, set_nth t (mk_thr (t_rest th) (if pc_eqb p PDone then None else Some i)) ths), pc_code p)
+    | None =>
+        match t_rest th with
+        | [] => (st, 0)
+        | l :: r =>
+            let s0 := step s l in
+            if Nat.ltb (length (tasks s)) (length (tasks s0)) then
+              let i := length (tasks s) in
+              let s1 := advance 8 s0 i in
+              let p := pc_at s1 i in
+              ((s1, set_nth t (mk_thr r (if pc_eqb p PDone then None else Some i)) ths), pc_code p)
+            else ((s0, set_nth t (mk_thr r None) ths), 0)
+        end
+    end
+  end.
+
+(* observation of a scheduled run: after every grant, the sync point reached and the number of appends *)
+Fixpoint grants (st : state * list thr) (ts : list nat) : list (nat * nat) * state :=
+  match ts with
+  | [] => ([], fst st)
+  | t :: r => let '(st1, c) := grant st t in
+              let '(o, fin) := grants st1 r in
+              ((c, length (emits (fst st1))) :: o, fin)
+  end.
